@@ -33,3 +33,7 @@ def run(F, X, rep):
     # every HTLC of a set declares the same amount to deliver: an HTLC whose TrampolineInfo (amount included) differs from
     # the entry's is rejected before it is counted (the whole-struct comparison of C07-U3)
     H.u3_reject_before_add(C, rep, "C03-R9", which=("conflict",))
+    # "the HTLCs counted stay held until the payment's fate is known": pay's Err (which releases them) is returned only
+    # once nothing is pending or complete (C16-D, C15-V*)
+    P.d_dispatch(C, rep, "C03-R10")
+    P.v_wait_payment(C, rep, "C03-R10")
